@@ -244,6 +244,9 @@ def run(ctx):
             ctx.check(good, "A2", "load:3:predicate", "the NoEndTag exit is taken exactly when the end-tag predicate on the loaded structure is false",
                       A.site(preds[0][0].bb), how=G.show(preds[0][1]), why=G.show(preds[0][1]))
     check_ref_from_ptr(ctx, F, HDR, 0)
+    # the memory-error exits are C14's chain for this header type (see C10)
+    if not getattr(ctx, "_imported", False):
+        ctx.import_prop("C14", only=lambda o: "<BootInformationHeader>" in o.key, label="slice validation for BootInformationHeader")
     # who constructs the wrapper: only load's success exit - the premise of the size invariant I-BI used by its methods
     from .. import inline as INL_
     ctors_, bad_ = INL_.constructors_of(F, "multiboot2::boot_information::BootInformation", ("load",))
